@@ -95,9 +95,41 @@ fn mixed_order_small_r() -> BoxedStrategy<Req> {
     }).boxed()
 }
 
+/// the signing key's own verifiers: honest signatures, tampered ones, S + k*l, and the signatures only the key
+/// owner can make whose R has small order (R = an encoding of the identity, S = k*a): non-strict accepts the
+/// canonical one, strict must refuse (added after the seeded change C09g: SigningKey::verify_strict
+/// delegating to the non-strict verifier)
+fn signing_key_verifiers() -> BoxedStrategy<Req> {
+    let nt = torsion_encodings().len();
+    (u256_interesting(), message(), super::c08::context_ok(), any::<bool>(), 0u8..6, 0..nt, any::<bool>()).prop_map(|(seed, m, ctx, has, kind, ir, ph)| {
+        let e = eddsa::expand(&seed);
+        let c: Vec<u8> = if has { ctx.clone() } else { vec![] };
+        let mut sig = if ph { eddsa::sign_ph(&seed, &eddsa::sha512(&[&m]), &c) } else { eddsa::sign(&seed, &m) };
+        let mut msg = m.clone();
+        match kind {
+            0 => {}
+            1 => msg.push(7),
+            2 => { let s = U256::from_le(&sig[32..].try_into().unwrap()).wrapping_add(&sc::l()); sig[32..].copy_from_slice(&s.to_le()); }
+            3 => sig[5] ^= 4,
+            _ => {
+                // small-order R (every encoding of every torsion point), S = k * a
+                let r = torsion_encodings()[ir];
+                let dom: Vec<u8> = if ph { eddsa::dom2(1, &c) } else { vec![] };
+                let mh: Vec<u8> = if ph { eddsa::sha512(&[&m]).to_vec() } else { m.clone() };
+                let k = Sc::from_bytes_mod_order_wide(&eddsa::sha512(&[&dom, &r, &e.pk, &mh]));
+                let s = k.mul(&Sc::from_bytes_mod_order(&e.a_bytes));
+                sig[..32].copy_from_slice(&r);
+                sig[32..].copy_from_slice(&s.to_bytes());
+            }
+        }
+        Req::new("sig.verify_sk", vec![seed.to_vec(), msg, sig.to_vec(), ctx, vec![has as u8]])
+    }).boxed()
+}
+
 pub fn strategy() -> BoxedStrategy<Req> {
     let nt = torsion_encodings().len();
     prop_oneof![
+        3 => signing_key_verifiers(),
         3 => mixed_order_small_r(),
         // honest
         2 => (u256_interesting(), message()).prop_map(|(seed, m)| { let e = eddsa::expand(&seed); let s = eddsa::sign(&seed, &m); req(&e.pk, m, &s, vec![], false) }),
@@ -183,7 +215,11 @@ pub fn strategy() -> BoxedStrategy<Req> {
 
 pub fn classify(r: &Req, resp: &Resp) -> Vec<&'static str> {
     let mut l = vec![];
-    let pk: [u8; 32] = r.a[0][..].try_into().unwrap();
+    let mut pk: [u8; 32] = r.a[0][..].try_into().unwrap();
+    if r.op == "sig.verify_sk" {
+        pk = eddsa::expand(&pk).pk;
+        l.push("signing-key-verifiers");
+    }
     let sig: [u8; 64] = r.a[2][..].try_into().unwrap();
     let s = U256::from_le(&sig[32..].try_into().unwrap());
     if s >= sc::l() {
@@ -214,7 +250,7 @@ pub fn classify(r: &Req, resp: &Resp) -> Vec<&'static str> {
     l
 }
 
-pub const RULE: &str = "adversarial (key, message, signature) triples built with the model: honest; S replaced by S+k*l / l / high bits; keys and R equal to each of the 8 torsion points in every accepted encoding (canonical, non-canonical y, sign bit on x=0) with the message searched until the cofactorless equation holds; honest key with small-order R; mixed-order keys A0+T (and R+T) signed with the scalar of A0 with the message searched for k*T=O; R or A undecodable / non-canonical / arbitrary; prehashed with contexts; garbage - each sent through all eight verification entry points (verify, verify_strict, raw_verify, verify_prehashed(_strict), raw_verify_prehashed, Context::verify_digest, DigestVerifier); oracle = the documented predicate on the integer model, both directions, per entry point, with the legacy S rule in the legacy build; non-trivial = S>=l, A or R small/mixed order, undecodable or non-canonically encoded, or a prehash/context case";
+pub const RULE: &str = "adversarial (key, message, signature) triples built with the model: honest; S replaced by S+k*l / l / high bits; keys and R equal to each of the 8 torsion points in every accepted encoding (canonical, non-canonical y, sign bit on x=0) with the message searched until the cofactorless equation holds; honest key with small-order R; mixed-order keys A0+T (and R+T) signed with the scalar of A0 with the message searched for k*T=O; R or A undecodable / non-canonical / arbitrary; prehashed with contexts; garbage ; the verifiers offered by the signing key itself (verify, verify_strict, Verifier, verify_prehashed) on honest / tampered / S+l signatures and on owner-made signatures with small-order R - each sent through all eight verification entry points (verify, verify_strict, raw_verify, verify_prehashed(_strict), raw_verify_prehashed, Context::verify_digest, DigestVerifier); oracle = the documented predicate on the integer model, both directions, per entry point, with the legacy S rule in the legacy build; non-trivial = S>=l, A or R small/mixed order, undecodable or non-canonically encoded, or a prehash/context case";
 
 pub fn checks(tier: Tier) -> Vec<Check> {
     vec![Check {
